@@ -17,6 +17,9 @@ def demo_plan(prop, k):
         d = f"/verif/seeded/{prop}-{k}"
     meta = json.load(open(f"{d}/meta.json"))
     cmd = meta["how_to_run_demo"]
+    # expand simple shell variables of the form NAME=/abs/path used later as $NAME
+    for name, val in re.findall(r"\b([A-Z][A-Z0-9_]*)=(/[^\s;]+)", cmd):
+        cmd = cmd.replace("$" + name, val).replace("${" + name + "}", val)
     wt = f"/tmp/seed-{prop}"
     m = re.search(r"cp\s+(\S+)\s+(\S+)", cmd)
     src, dst = m.group(1), m.group(2).rstrip(";")
@@ -25,6 +28,7 @@ def demo_plan(prop, k):
         dst = os.path.join(wt, dst)
     t = re.search(r"(go test[^#;&\n]*)", cmd).group(1)
     t = re.split(r"\s{2,}\(", t)[0].strip()      # drop a trailing "   (package …)" remark
+    t = t.rstrip(")").strip()
     # directory of the go test command: the last `cd X` before it, else the worktree
     pre = cmd[:cmd.index(t)]
     cds = [c.rstrip(";") for c in re.findall(r"cd\s+(\S+)", pre)]
